@@ -660,6 +660,7 @@ def check(ctx):
     ctx.rule("R7", "the segment payload reaches the assembler whole: the packet framing that every STATV passes through is DOTALL, its DATAS group is the last and greedy, earlier groups cannot overrun - a payload may contain any byte string, </DATAS> included (C04's framing-regex rule borrowed)")
     from .c04 import framing as _framing
     _framing(ctx.borrowed("R7", "C04", only=("R5",)), repo)
+    _framing(ctx.borrowed("R7", "C04", only=("R4",), key_contains="frame-round-trip::payload"), repo)
     ctx.rule("R8", "request and segment codec: the STATU request the client builds is decoded by the peer to the same sequence number, start and length for EVERY value of those fields, and a STATV segment to the same index / next / payload (C04's symbolic round trip of the status-block messages borrowed) - a request the simulator cannot decode produces no chain at all")
     from .c04 import round_trips as _round_trips
     _round_trips(ctx.borrowed("R8", "C04", only=("R2",), key_prefix="GeckoStatusBlockProtocolHandler"), repo)
